@@ -252,3 +252,322 @@ Proof.
     destruct (length (firstn k hist)) as [|k']; [lia|].
     unfold size_of_round. rewrite Ht, Hs. reflexivity.
 Qed.
+
+(** * C04 *)
+
+Definition counted_after (c : cfg) (hist : list round_obs) (k : nat) : N := counted_of c (firstn k hist).
+
+(** What [continue_after] says. *)
+Lemma continue_after_spec c init hist k :
+  continue_after c init hist k = true <->
+  elapsed_after c init hist k < c_max c /\
+  (counted_after c hist k < sample_count_of c \/ elapsed_after c init hist k < c_min c).
+Proof.
+  unfold continue_after, continue_of, counted_after, elapsed_after.
+  rewrite Bool.andb_true_iff, Bool.orb_true_iff, !N.ltb_lt. reflexivity.
+Qed.
+
+Lemma firstn_len_le {A} (l : list A) k : (k <= length l)%nat -> length (firstn k l) = k.
+Proof. intros H. rewrite firstn_length. lia. Qed.
+
+(** The number of rounds run is the least k at which the rule says stop — for
+    every history, every (n, s, min, max, skip), tuned or not; max = 0 included. *)
+Theorem rounds_least c init hist out :
+  c_test c = false -> has_samples c = true ->
+  bench_loop c init hist = Ok out ->
+  let k := rounds_of (out_state out) in
+  (k <= length hist)%nat /\
+  (forall j, (j < k)%nat -> continue_after c init hist j = true) /\
+  (if out_done out then continue_after c init hist k = false
+   else k = length hist /\ continue_after c init hist k = true).
+Proof.
+  intros Ht Hh H. destruct (zero_case c) eqn:Hz.
+  - (* only max_time = 0 is left: nothing runs, and the rule says stop at 0 *)
+    unfold bench_loop in H. unfold zero_case in Hz. rewrite Hz in H. injection H as H; subst out.
+    cbn [out_state out_done]. cbn. split; [lia|]. split; [intros j Hj; lia|].
+    rewrite Hh in Hz. cbn [negb] in Hz. rewrite Bool.orb_false_r in Hz. apply N.eqb_eq in Hz.
+    unfold continue_after, continue_of. cbn [firstn].
+    assert (He : elapsed_of c init [] = 0) by (unfold elapsed_of; destruct (c_skip c); reflexivity).
+    rewrite He, Hz. reflexivity.
+  - destruct (bench_loop_spec c init hist out Ht Hz H) as [k [Hk [Hst [Hlt Hend]]]].
+    cbn zeta. rewrite Hst, rounds_spec_state, (firstn_len_le hist k Hk).
+    split; [exact Hk|]. split; [exact Hlt|exact Hend].
+Qed.
+
+Example rounds_least_example :
+  exists out, bench_loop ex_cfg 0 ex_hist = Ok out /\ c_test ex_cfg = false /\ has_samples ex_cfg = true.
+Proof. eexists. split; [vm_compute; reflexivity|]. split; reflexivity. Qed.
+
+(** max_time has priority: once the elapsed time is at least max_time after
+    some round, no further round is run, whatever the sample count and min_time. *)
+Theorem max_has_priority c init hist out j :
+  c_test c = false -> has_samples c = true ->
+  bench_loop c init hist = Ok out ->
+  c_max c <= elapsed_after c init hist j ->
+  (rounds_of (out_state out) <= j)%nat.
+Proof.
+  intros Ht Hh H Hm. destruct (rounds_least c init hist out Ht Hh H) as [_ [Hlt _]].
+  destruct (Nat.le_gt_cases (rounds_of (out_state out)) j) as [Hle|Hgt]; [exact Hle|].
+  specialize (Hlt j Hgt). apply continue_after_spec in Hlt. lia.
+Qed.
+
+(** ... and conversely the loop does not stop for min_time or the sample count
+    alone while samples are missing or the floor is not reached: that is
+    [rounds_least]'s first half. *)
+
+Lemma firstn_S_snoc {A} (l : list A) k x : nth_error l k = Some x -> firstn (S k) l = firstn k l ++ [x].
+Proof.
+  revert k. induction l as [|y l IH]; intros k H.
+  - destruct k; discriminate.
+  - destruct k as [|k]; cbn [nth_error] in H.
+    + injection H as H; subst y. reflexivity.
+    + cbn [firstn app]. f_equal. apply IH. exact H.
+Qed.
+
+(** The loop's [elapsed_picos] is the declarative elapsed time, which is: *)
+Theorem elapsed_def c init hist out :
+  c_test c = false -> has_samples c = true ->
+  bench_loop c init hist = Ok out ->
+  s_elapsed (out_state out) = elapsed_after c init hist (rounds_of (out_state out)) /\
+  elapsed_after c init hist 0 = 0 /\
+  (c_skip c = false -> forall k o, nth_error hist k = Some o ->
+     elapsed_after c init hist (S k) = dur_ps (c_freq c) (latest_end o) init) /\
+  (c_skip c = true -> forall k,
+     elapsed_after c init hist k =
+     N.min (sum_n (map (fun o => N.max (slowest_of c o) 1000) (firstn k hist))) (2 ^ 128 - 1)).
+Proof.
+  intros Ht Hh H. split; [|split; [|split]].
+  - destruct (zero_case c) eqn:Hz.
+    + unfold bench_loop in H. unfold zero_case in Hz. rewrite Hz in H. injection H as H; subst out.
+      cbn [out_state]. cbn. unfold elapsed_after, elapsed_of. cbn [firstn]. destruct (c_skip c); reflexivity.
+    + destruct (bench_loop_spec c init hist out Ht Hz H) as [k [Hk [Hst _]]].
+      rewrite Hst, rounds_spec_state, (firstn_len_le hist k Hk). reflexivity.
+  - unfold elapsed_after, elapsed_of. cbn [firstn]. destruct (c_skip c); reflexivity.
+  - intros Hs k o Ho. unfold elapsed_after. rewrite (firstn_S_snoc hist k o Ho).
+    apply elapsed_of_snoc_noskip. exact Hs.
+  - intros Hs k. unfold elapsed_after, elapsed_of. rewrite Hs. reflexivity.
+Qed.
+
+(** * C19 *)
+
+Lemma firstn_firstn_le {A} (l : list A) i k : (i <= k)%nat -> firstn i (firstn k l) = firstn i l.
+Proof. intros H. rewrite firstn_firstn. f_equal. lia. Qed.
+
+Lemma sizes_of_firstn c hist k : (k <= length hist)%nat ->
+  sizes_of c (firstn k hist) (length (firstn k hist)) = sizes_of c hist k.
+Proof.
+  intros Hk. rewrite (firstn_len_le hist k Hk).
+  rewrite <- (firstn_skipn k hist) at 2. apply eq_sym. apply sizes_of_app.
+  rewrite (firstn_len_le hist k Hk). lia.
+Qed.
+
+(** Sizes of successive rounds: 1, 2, 4, ... while no round has passed the
+    threshold, then constant. *)
+Theorem tune_sequence c init hist out :
+  c_test c = false -> c_size c = None -> has_samples c = true -> c_max c <> 0 ->
+  bench_loop c init hist = Ok out ->
+  let k := rounds_of (out_state out) in
+  s_sizes (out_state out) = sizes_of c hist k /\
+  (forall i, (i < k)%nat ->
+     nth_error (s_sizes (out_state out)) i =
+     Some (match first_pass c (firstn i hist) with Some j0 => pow2 j0 | None => pow2 i end)).
+Proof.
+  intros Ht Hs Hh Hm H.
+  assert (Hz : zero_case c = false).
+  { unfold zero_case. rewrite Hh. apply N.eqb_neq in Hm. rewrite Hm. reflexivity. }
+  destruct (bench_loop_spec c init hist out Ht Hz H) as [k [Hk [Hst _]]].
+  cbn zeta. rewrite Hst, rounds_spec_state, (firstn_len_le hist k Hk).
+  cbn [spec_state s_sizes]. rewrite (sizes_of_firstn c hist k Hk).
+  split; [reflexivity|].
+  intros i Hi. unfold sizes_of. rewrite nth_error_map.
+  assert (Hn : nth_error (seq 0 k) i = Some i).
+  { rewrite (nth_error_nth' (seq 0 k) 0%nat) by (rewrite seq_length; exact Hi). rewrite seq_nth by exact Hi. reflexivity. }
+  rewrite Hn. cbn [option_map]. unfold size_of_round. rewrite Ht, Hs. reflexivity.
+Qed.
+
+Lemma first_pass_firstn_some c l j0 i : first_pass c l = Some j0 -> (j0 < i)%nat ->
+  first_pass c (firstn i l) = Some j0.
+Proof.
+  revert j0 i. induction l as [|o l IH]; intros j0 i H Hi; cbn [first_pass] in H; [discriminate|].
+  destruct i as [|i]; [lia|]. cbn [firstn first_pass].
+  destruct (passes c o); [exact H|].
+  destruct (first_pass c l) as [j|] eqn:E; [|discriminate]. injection H as H; subst j0.
+  rewrite (IH j i eq_refl) by lia. reflexivity.
+Qed.
+
+Lemma first_pass_firstn_none c l j0 i : first_pass c l = Some j0 -> (i <= j0)%nat ->
+  first_pass c (firstn i l) = None.
+Proof.
+  revert j0 i. induction l as [|o l IH]; intros j0 i H Hi; cbn [first_pass] in H; [discriminate|].
+  destruct i as [|i]; [reflexivity|]. cbn [firstn first_pass].
+  destruct (passes c o); [injection H as H; lia|].
+  destruct (first_pass c l) as [j|] eqn:E; [|discriminate]. injection H as H; subst j0.
+  rewrite (IH j i eq_refl) by lia. reflexivity.
+Qed.
+
+Lemma first_pass_firstn_none' c l i : first_pass c l = None -> first_pass c (firstn i l) = None.
+Proof.
+  revert i. induction l as [|o l IH]; intros i H; cbn [first_pass] in H.
+  - destruct i; reflexivity.
+  - destruct i as [|i]; [reflexivity|]. cbn [firstn first_pass].
+    destruct (passes c o); [discriminate|].
+    destruct (first_pass c l) as [j|] eqn:E; [discriminate|]. rewrite (IH i eq_refl). reflexivity.
+Qed.
+
+Lemma last_as_skipn {A} (l : list A) :
+  match rev l with [] => [] | o :: _ => [o] end = skipn (length l - 1) l.
+Proof.
+  induction l as [|x l _] using rev_ind; [reflexivity|].
+  rewrite rev_app_distr. cbn [rev app]. rewrite app_length. cbn [length].
+  replace (length l + 1 - 1)%nat with (length l) by lia. rewrite skipn_len_snoc. reflexivity.
+Qed.
+
+(** Only the rounds from the first passing one on (or, while none has passed,
+    only the newest round) have left anything in the sample collection, the
+    allocation map and the per-input counts: the store is what recording just
+    those rounds into empty collections gives.  All of them have the final size. *)
+Theorem discard_earlier c init hist out :
+  c_test c = false -> c_size c = None -> has_samples c = true -> c_max c <> 0 ->
+  bench_loop c init hist = Ok out ->
+  let k := rounds_of (out_state out) in
+  let pre := firstn k hist in
+  let kept := match first_pass c pre with Some j0 => skipn j0 pre | None => skipn (k - 1) pre end in
+  let size := match first_pass c pre with Some j0 => pow2 j0 | None => pow2 (k - 1) end in
+  s_store (out_state out) = fold_left (record_one c size) (with_dur c (concat kept)) store_empty /\
+  st_samples (s_store (out_state out)) = map (fun r => sample_duration c size r (dur_of c r)) (concat kept) /\
+  (k <> 0%nat -> s_size (out_state out) = size).
+Proof.
+  intros Ht Hs Hh Hm H.
+  assert (Hz : zero_case c = false).
+  { unfold zero_case. rewrite Hh. apply N.eqb_neq in Hm. rewrite Hm. reflexivity. }
+  destruct (bench_loop_spec c init hist out Ht Hz H) as [k [Hk [Hst _]]].
+  cbn zeta. rewrite Hst, rounds_spec_state, (firstn_len_le hist k Hk).
+  set (pre := firstn k hist). assert (Hlen : length pre = k) by (apply firstn_len_le; exact Hk).
+  assert (Hstore : store_of c pre =
+     fold_left (record_one c (match first_pass c pre with Some j0 => pow2 j0 | None => pow2 (k - 1) end))
+       (with_dur c (concat (match first_pass c pre with Some j0 => skipn j0 pre | None => skipn (k - 1) pre end)))
+       store_empty).
+  { unfold store_of, kept_size, kept_of. rewrite (tuned_bench c Ht), Hs, Hlen.
+    destruct (first_pass c pre); [reflexivity|]. rewrite last_as_skipn, Hlen. reflexivity. }
+  split; [exact Hstore|]. split.
+  - cbn [spec_state s_store]. rewrite Hstore. rewrite record_one_samples. reflexivity.
+  - intros Hk0. cbn [spec_state s_size]. unfold last_size. rewrite Hlen.
+    destruct k as [|k']; [contradiction|]. unfold size_of_round. rewrite Ht, Hs.
+    replace (S k' - 1)%nat with k' by lia.
+    destruct (first_pass c pre) as [j0|] eqn:Ef.
+    + pose proof (first_pass_lt c pre j0 Ef) as Hlt. rewrite Hlen in Hlt.
+      destruct (Nat.eq_dec j0 k') as [E|E].
+      * subst j0. rewrite (first_pass_firstn_none c pre k' k' Ef) by lia. reflexivity.
+      * rewrite (first_pass_firstn_some c pre j0 k' Ef) by lia. reflexivity.
+    + rewrite (first_pass_firstn_none' c pre k' Ef). reflexivity.
+Qed.
+
+(** The round that first passes the threshold counts as the first recorded
+    one: with no time limit binding, exactly ceil(n/t) rounds are run from it
+    on (itself included) and t*ceil(n/t) samples are reported. *)
+Theorem threshold_round_counts c init hist out t j0 :
+  c_test c = false -> c_size c = None -> has_samples c = true ->
+  (0 < t)%nat -> uniform_p t hist ->
+  first_pass c hist = Some j0 ->
+  let n := sample_count_of c in
+  let r := N.to_nat (ceil_div n (N.of_nat t)) in
+  (j0 + r <= length hist)%nat ->
+  (forall j, (j < j0 + r)%nat -> elapsed_after c init hist j < c_max c) ->
+  c_min c <= elapsed_after c init hist (j0 + r) ->
+  bench_loop c init hist = Ok out ->
+  out_done out = true /\
+  rounds_of (out_state out) = (j0 + r)%nat /\
+  length (st_samples (s_store (out_state out))) = (t * r)%nat /\
+  s_size (out_state out) = pow2 j0.
+Proof.
+  intros Ht Hs Hh Htpos Hu Hf n r Hr Hmax Hmin H.
+  assert (Hn0 : n <> 0) by (apply has_samples_count; exact Hh).
+  assert (Htn : 0 < N.of_nat t) by lia.
+  assert (Hr1 : (1 <= r)%nat).
+  { unfold r. assert (0 < ceil_div n (N.of_nat t)); [|lia].
+    apply (ceil_div_lt n (N.of_nat t) 0 Htn). lia. }
+  assert (Hz : zero_case c = false).
+  { unfold zero_case. rewrite Hh. cbn [negb]. rewrite Bool.orb_false_r. apply N.eqb_neq.
+    specialize (Hmax O ltac:(lia)). lia. }
+  assert (Hcnt_before : forall j, (j <= j0)%nat -> counted_of c (firstn j hist) = 0).
+  { intros j Hj. unfold counted_of. rewrite (tuned_bench c Ht), Hs.
+    rewrite (first_pass_firstn_none c hist j0 j Hf Hj). reflexivity. }
+  assert (Hcnt_after : forall j, (j0 < j)%nat -> (j <= length hist)%nat ->
+            counted_of c (firstn j hist) = N.of_nat t * N.of_nat (j - j0)).
+  { intros j Hj Hjl. unfold counted_of. rewrite (tuned_bench c Ht), Hs.
+    rewrite (first_pass_firstn_some c hist j0 j Hf Hj).
+    rewrite (total_len_uniform t) by (apply uniform_skipn, uniform_firstn; exact Hu).
+    rewrite skipn_length, (firstn_len_le hist j Hjl). reflexivity. }
+  assert (Hcont : forall j, (j < j0 + r)%nat -> continue_after c init hist j = true).
+  { intros j Hj. apply continue_after_spec. split; [apply Hmax; exact Hj|]. left. unfold counted_after.
+    destruct (Nat.le_gt_cases j j0) as [Hle|Hgt].
+    - rewrite (Hcnt_before j Hle). fold n. lia.
+    - rewrite (Hcnt_after j Hgt) by lia. fold n.
+      apply (ceil_div_lt n (N.of_nat t) (N.of_nat (j - j0)) Htn). unfold r in Hj. lia. }
+  assert (Hstop : continue_after c init hist (j0 + r) = false).
+  { destruct (continue_after c init hist (j0 + r)) eqn:E; [|reflexivity]. exfalso.
+    apply continue_after_spec in E. destruct E as [_ [E|E]]; [|lia].
+    unfold counted_after in E. rewrite (Hcnt_after (j0 + r)%nat) in E by lia.
+    replace (j0 + r - j0)%nat with r in E by lia.
+    assert (Hge : n <= N.of_nat t * N.of_nat r).
+    { unfold r. rewrite N2Nat.id. apply ceil_div_ge. exact Htn. }
+    fold n in E. lia. }
+  destruct (ends_at_least c init hist out (j0 + r) Ht Hz H Hr Hcont Hstop) as [Hd Hst].
+  split; [exact Hd|]. rewrite Hst.
+  assert (Hlen : length (firstn (j0 + r) hist) = (j0 + r)%nat) by (apply firstn_len_le; exact Hr).
+  assert (Hf2 : first_pass c (firstn (j0 + r) hist) = Some j0) by (apply first_pass_firstn_some; [exact Hf|lia]).
+  split; [rewrite rounds_spec_state; exact Hlen|]. split.
+  - cbn [spec_state s_store]. rewrite store_of_samples_len.
+    rewrite (kept_of_passed c _ j0 Ht Hs Hf2).
+    rewrite (concat_len_uniform t) by (apply uniform_skipn, uniform_firstn; exact Hu).
+    rewrite skipn_length, Hlen. f_equal. lia.
+  - cbn [spec_state s_size]. unfold last_size. rewrite Hlen.
+    destruct (j0 + r)%nat as [|m] eqn:Em; [lia|]. unfold size_of_round. rewrite Ht, Hs.
+    assert (Hm : (m <= length (firstn (S m) hist))%nat) by (rewrite Hlen; lia).
+    rewrite (firstn_firstn_le hist m (S m)) by lia.
+    destruct (Nat.eq_dec j0 m) as [E|E].
+    + subst m. rewrite (first_pass_firstn_none c hist j0 j0 Hf) by lia. reflexivity.
+    + rewrite (first_pass_firstn_some c hist j0 m Hf) by lia. reflexivity.
+Qed.
+
+(** max_time also covers the tuning rounds: whether or not any round has
+    passed the threshold, no round starts once the elapsed time is at least
+    max_time. *)
+Theorem max_time_covers_tuning c init hist out :
+  c_test c = false -> c_size c = None -> has_samples c = true ->
+  bench_loop c init hist = Ok out ->
+  (forall j, (j < rounds_of (out_state out))%nat -> elapsed_after c init hist j < c_max c) /\
+  (forall j, c_max c <= elapsed_after c init hist j -> (rounds_of (out_state out) <= j)%nat).
+Proof.
+  intros Ht Hs Hh H. split.
+  - intros j Hj. destruct (rounds_least c init hist out Ht Hh H) as [_ [Hlt _]].
+    specialize (Hlt j Hj). apply continue_after_spec in Hlt. lia.
+  - intros j Hj. apply (max_has_priority c init hist out j Ht Hh H Hj).
+Qed.
+
+(** A tuned run: sizes 1, 2, 4 (the third round's slowest sample is 404 > 100
+    x the precision 4), then two more rounds for n = 5 on 2 threads; max_time cuts
+    nothing.  Hypotheses of the C19 theorems are satisfiable. *)
+Definition ex_tune_cfg : cfg :=
+  {| c_test := false; c_count := Some 5; c_size := None; c_min := 0; c_max := u128_max; c_skip := false;
+     c_freq := 1000000000000; c_prec := 4; c_oh := {| oh_loop := 0; oh_alloc := 0; oh_dealloc := 0; oh_realloc := 0 |};
+     c_input_counts := true |}.
+Definition ex_tune_hist : list round_obs :=
+  [[ex_raw 10 111; ex_raw 5 100]; [ex_raw 200 402; ex_raw 190 380]; [ex_raw 500 904; ex_raw 490 880];
+   [ex_raw 1000 1404; ex_raw 990 1390]; [ex_raw 1500 1904; ex_raw 1490 1890]; [ex_raw 2000 2404; ex_raw 1990 2390]].
+
+Example tune_example :
+  exists out, bench_loop ex_tune_cfg 0 ex_tune_hist = Ok out /\ out_done out = true /\
+    s_sizes (out_state out) = [1; 2; 4; 4; 4] /\ first_pass ex_tune_cfg ex_tune_hist = Some 2%nat /\
+    length (st_samples (s_store (out_state out))) = 6%nat /\ s_size (out_state out) = 4.
+Proof. eexists. split; [vm_compute; reflexivity|]. vm_compute. repeat split. Qed.
+
+(** * Obligations on the generated constants, per property *)
+Lemma consts_c04 : max_time_cmp_is_ge = true /\ min_time_cmp_is_lt = true /\ min_progress_picos = 1000.
+Proof. repeat split; reflexivity. Qed.
+
+Lemma consts_c19 : tune_threshold = 100 /\ tune_factor = 2.
+Proof. split; reflexivity. Qed.
+
+Lemma passes_spec c o : passes c o = true <-> 100 < slowest_of c o / c_prec c.
+Proof. unfold passes. apply N.ltb_lt. Qed.
